@@ -24,7 +24,7 @@ type Sel struct {
 	Count  []uint64 `json:"count"`
 	Stride []uint64 `json:"stride,omitempty"`
 	Block  []uint64 `json:"block,omitempty"`
-	Slice  bool     `json:"slice"` // use ReadSlice(start,count) (stride/block must be nil)
+	Slice  bool     `json:"slice"`         // use ReadSlice(start,count) (stride/block must be nil)
 	OOB    string   `json:"oob,omitempty"` // how the selection was pushed out of bounds ("" = in bounds)
 }
 
@@ -33,6 +33,8 @@ type Case struct {
 	Type  string   `json:"type"`
 	Dims  []uint64 `json:"dims"`
 	Chunk []uint64 `json:"chunk,omitempty"`
+	Mixed bool     `json:"mixed,omitempty"` // data with extreme values (top bits set, NaN payloads, negative zero) instead of 0,1,2,..
+	DSeed int      `json:"dseed,omitempty"`
 	// ... or a corpus dataset
 	Corpus string `json:"corpus,omitempty"` // file (relative to /repo/testdata) + "::" + dataset path
 	Sels   []Sel  `json:"sels"`
@@ -184,7 +186,9 @@ func gen(t *rapid.T) Case {
 		c.Corpus = d.File + "::" + d.Path
 		c.Dims = d.Dims
 	} else {
-		c.Type = rapid.SampledFrom([]string{"f64", "i32", "f32", "i64", "u32", "u64"}).Draw(t, "type")
+		c.Type = rapid.SampledFrom([]string{"f64", "i32", "f32", "i64", "u32", "u64", "u64"}).Draw(t, "type")
+		c.Mixed = rapid.Bool().Draw(t, "mixedData")
+		c.DSeed = rapid.IntRange(0, 999).Draw(t, "dseed")
 		rank := rapid.SampledFrom([]int{1, 2, 2, 3, 3, 4}).Draw(t, "rank")
 		maxE := []int{40, 12, 7, 5}[rank-1]
 		for i := 0; i < rank; i++ {
@@ -317,7 +321,7 @@ func run(c Case) vt.Verdict {
 			ex.Close()
 			return vt.Skipped("bad spec")
 		}
-		for _, op := range []hist.Op{{K: "dataset", Path: dpath, D: spec}, {K: "write", Path: dpath, Seed: 3, Mode: hist.ModeSeq}} {
+		for _, op := range []hist.Op{{K: "dataset", Path: dpath, D: spec}, {K: "write", Path: dpath, Seed: 3 + c.DSeed, Mode: dataMode(c)}} {
 			if st := ex.Apply(op); st.Err != "" || st.Broken != "" {
 				ex.Close()
 				return vt.Bad("setup %s: %s%s", op.K, st.Err, st.Broken)
@@ -406,6 +410,13 @@ func run(c Case) vt.Verdict {
 		return *v
 	}
 	return vt.Pass()
+}
+
+func dataMode(c Case) int {
+	if c.Mixed {
+		return hist.ModeMixed
+	}
+	return hist.ModeSeq
 }
 
 func TestProp(t *testing.T) {
